@@ -265,8 +265,24 @@ def _r1(run, prog):
             return ('either', ev(e.body, et), ev(e.orelse, ef))
         return None
 
+    DEAD = {'__dead__': True}
+
     def refine(test, env):
         """Split env on a comparison of a tracked variable with 0 or p. Returns (env_true, env_false) or None."""
+        if env.get('__dead__'):
+            return env, env
+        # the claim is for a positive period: 'p == 0' / 'p <= 0' never holds
+        if norm(test) in ('%s == 0' % p, '%s == 0.0' % p, '%s <= 0' % p, '0 == %s' % p, 'not %s' % p):
+            return DEAD, env
+        if norm(test) in ('%s != 0' % p, '%s > 0' % p, '%s != 0.0' % p, '%s' % p):
+            return env, DEAD
+        if isinstance(test, ast.Compare) and len(test.ops) > 1:
+            # a chained comparison is the conjunction of its links
+            parts, left = [], test.left
+            for op_, right in zip(test.ops, test.comparators):
+                parts.append(ast.Compare(left=left, ops=[op_], comparators=[right]))
+                left = right
+            return refine(ast.BoolOp(op=ast.And(), values=parts), env)
         if isinstance(test, ast.UnaryOp) and isinstance(test.op, ast.Not):
             r_ = refine(test.operand, env)
             return (r_[1], r_[0]) if r_ is not None else None
@@ -281,6 +297,7 @@ def _r1(run, prog):
                 one, other = (r_[0], r_[1]) if is_or else (r_[1], r_[0])
                 hull_envs.append(one)
                 seq = other
+            hull_envs = [h_ for h_ in hull_envs if not h_.get('__dead__')] or [DEAD]
             hull = dict(hull_envs[0])
             for e_ in hull_envs[1:]:
                 for k_ in set(hull) | set(e_):
@@ -329,6 +346,8 @@ def _r1(run, prog):
 
     def block(stmts, env):
         """Returns env at fall-through or None if all paths returned."""
+        if env.get('__dead__'):
+            return None
         for st in stmts:
             if isinstance(st, ast.Return):
                 if env.get('__imprecise__'):
@@ -400,8 +419,9 @@ def _r1(run, prog):
             run.undecided('C13-R1', 'return %s' % norm(node.value)[:40], 'reached through a test that was not interpreted')
         else:
             run.fail('C13-R1', K + 'range|%s' % norm(node.value).replace(' ', '')[:40], PXD, node.lineno,
-                     "remainder returns a value in %s periods: for a tiny negative argument fmod + period rounds to the period "
-                     "itself, so the inner function is evaluated at 'period', outside [0, period)" % iv)
+                     "remainder returns a value in %s periods on the path ending in 'return %s': the inner function can be evaluated outside "
+                     "[0, period) -- at 'period' itself when the end point is attainable (an argument equal to the period passed through "
+                     "unchanged, or fmod + period rounding up for a tiny negative argument)" % (iv, norm(node.value)[:30]))
     for n in undec:
         run.undecided('C13-R1', 'remainder', 'cannot interpret %s' % norm(n)[:60])
     run.floor('C13-R1', 1)
@@ -501,8 +521,39 @@ def _r2(run, prog):
             def subscript(self_, n):
                 r = super().subscript(n)          # an element stored earlier on this path (d[i] = x) is read back as its value
                 return self_.env.get(r.key(), r)
+        # fields the constructor derives from the selector (a cached flag or table) take the value they have for this selector
+        derived = {}
+        init_ = ci.methods.get('__init__')
+
+        def conc(e):
+            if isinstance(e, ast.Constant) and isinstance(e.value, (int, bool)):
+                return e.value
+            if isinstance(e, ast.Subscript) and norm(e.value) == 'self.shape' and isinstance(e.slice, ast.Constant) and e.slice.value in (0, 1, 2):
+                return shape[e.slice.value]
+            if isinstance(e, ast.Attribute) and norm(e) in derived:
+                return derived[norm(e)]
+            if isinstance(e, ast.Compare) and len(e.ops) == 1:
+                a_, b_ = conc(e.left), conc(e.comparators[0])
+                ops_ = {ast.Eq: lambda: a_ == b_, ast.NotEq: lambda: a_ != b_, ast.Lt: lambda: a_ < b_, ast.Gt: lambda: a_ > b_,
+                        ast.LtE: lambda: a_ <= b_, ast.GtE: lambda: a_ >= b_}
+                if type(e.ops[0]) in ops_:
+                    return ops_[type(e.ops[0])]()
+            if isinstance(e, ast.BoolOp):
+                vs = [conc(v_) for v_ in e.values]
+                return all(vs) if isinstance(e.op, ast.And) else any(vs)
+            if isinstance(e, ast.UnaryOp) and isinstance(e.op, ast.Not):
+                return not conc(e.operand)
+            raise ValueError(norm(e))
+        for st_ in (ast.walk(init_) if init_ is not None else ()):
+            if isinstance(st_, ast.Assign) and len(st_.targets) == 1 and isinstance(st_.targets[0], ast.Attribute) and norm(st_.targets[0].value) == 'self' \
+                    and st_.targets[0].attr != 'shape':
+                try:
+                    derived[norm(st_.targets[0])] = conc(st_.value)
+                except Exception:
+                    pass
         try:
-            paths = PathInterp(evm, sinks=('self.function3d.evaluate',), evaluator=SE, inline=helpers, max_paths=8).run()
+            paths = PathInterp(evm, sinks=('self.function3d.evaluate',), valuation={k_: (1 if v_ else 0) if isinstance(v_, bool) else v_ for k_, v_ in derived.items()},
+                               evaluator=SE, inline=helpers, max_paths=8).run()
         except Exception as e_:
             und = 'selector %s: %s' % (shape, str(e_)[:60])
             break
